@@ -1,10 +1,13 @@
 use crate::engine::Engine;
 
+pub mod c03;
 pub mod c04;
 pub mod c06;
 pub mod c07;
 pub mod c09;
 pub mod c10;
+pub mod c11;
+pub mod c14;
 pub mod c16;
 pub mod c17;
 pub mod c17_cli;
@@ -13,11 +16,14 @@ pub mod c20;
 
 pub fn run(id: &str, e: &Engine) -> bool {
 	match id {
+		"C03" => c03::check(e),
 		"C04" => c04::check(e),
 		"C06" => c06::check(e),
 		"C07" => c07::check(e),
 		"C09" => c09::check(e),
 		"C10" => c10::check(e),
+		"C11" => c11::check(e),
+		"C14" => c14::check(e),
 		"C16" => c16::check(e),
 		"C17" => c17::check(e),
 		"C19" => c19::check(e),
@@ -27,4 +33,4 @@ pub fn run(id: &str, e: &Engine) -> bool {
 	true
 }
 
-pub const ALL: &[&str] = &["C04", "C06", "C07", "C09", "C10", "C16", "C17", "C19", "C20"];
+pub const ALL: &[&str] = &["C03", "C04", "C06", "C07", "C09", "C10", "C11", "C14", "C16", "C17", "C19", "C20"];
